@@ -103,6 +103,44 @@ package cl
 //@   exact
 //@   operands-kept
 
+// C05: the numeric predicates answer from the exact values of their
+// arguments: a signed 64-bit intermediate that takes part in a comparison must
+// equal its mathematical value (a wrapped cross product or difference would
+// break trichotomy).
+//@ func cl.(*Lt).Call
+//@   property C05
+//@   option exact-compare
+//@ func cl.(*Lte).Call
+//@   property C05
+//@   option exact-compare
+//@ func cl.(*Gt).Call
+//@   property C05
+//@   option exact-compare
+//@ func cl.(*Gte).Call
+//@   property C05
+//@   option exact-compare
+//@ func cl.(*Same).Call
+//@   property C05
+//@   option exact-compare
+//@ func cl.(*Uniq).Call
+//@   property C05
+//@   option exact-compare
+//@ func cl.(*Max).Call
+//@   property C05
+//@   option exact-compare
+//@ func cl.(*Min).Call
+//@   property C05
+//@   option exact-compare
+//@ func cl.(*Zerop).Call
+//@   property C05
+//@   option exact-compare
+//@ func cl.(*Plusp).Call
+//@   property C05
+//@   option exact-compare
+//@ func cl.(*Minusp).Call
+//@   property C05
+//@   option exact-compare
+
 // ---------------------------------------------------------------------------
 // C01 / C07, family T: ghost evaluation trace ($n events; $ek kind, $eslot slot
 // of the own argument list, $escope scope, $eres result; $exit = an exit
